@@ -271,7 +271,7 @@ theorem readLoop_conforming (hc : Conforming dev view lim plan ms) (p : Profile)
     (hmc : 24 ≤ mc) :
     ∀ (fuel offset rem : Nat) (s : St σ) (accRev : Bytes), rem < fuel →
       address + offset + rem ≤ 2 ^ 64 → offset + rem < 2 ^ 64 → s.h.nextReqId < 2 ^ 16 →
-      s.h.cfg.retry = retry → s.h.cfg.maxCmd = mc → s.h.cfg.timeoutMs = t →
+      s.h.cfg.retry = retry → s.h.cfg.maxCmd = mc → s.h.cfg.xfer = t →
       (view s.d).queue = [] →
       ∃ s', readLoop dev p m address fuel offset rem s accRev =
           (s', .ok (accRev.reverse ++ readRange (view s.d).mem (address + offset) rem)) ∧
@@ -426,7 +426,7 @@ theorem writeChunkLoop_conforming (hc : Conforming dev view lim plan ms) (p : Pr
     (t : Nat) :
     ∀ (fuel : Nat) (it : Cmd.WriteMemChunks) (s : St σ) (cs : List Cmd.WriteMem),
       it.collect p fuel = .ok cs → (∀ c ∈ cs, ChunkOk lim c) → s.h.nextReqId < 2 ^ 16 →
-      s.h.cfg.retry = retry → s.h.cfg.maxCmd = lim.maxCmd → s.h.cfg.timeoutMs = t →
+      s.h.cfg.retry = retry → s.h.cfg.maxCmd = lim.maxCmd → s.h.cfg.xfer = t →
       (view s.d).queue = [] →
       ∃ s', writeChunkLoop dev p fuel it s = (s', .ok ()) ∧
         (view s'.d).mem = applyWrites (view s.d).mem cs ∧ (view s'.d).queue = [] ∧
@@ -575,7 +575,7 @@ theorem writeBlockLoop_conforming (hc : Conforming dev view lim plan ms) (p : Pr
     ∀ (fuel offset : Nat) (rest : Bytes) (s : St σ), rest.length < fuel →
       address + offset + rest.length ≤ 2 ^ 64 → offset + rest.length < 2 ^ 64 →
       s.h.nextReqId < 2 ^ 16 → s.h.cfg.retry = retry → s.h.cfg.maxCmd = lim.maxCmd →
-      s.h.cfg.timeoutMs = t → (view s.d).queue = [] →
+      s.h.cfg.xfer = t → (view s.d).queue = [] →
       ∃ s', writeBlockLoop dev p address lim.maxCmd fuel offset rest s = (s', .ok ()) ∧
         (view s'.d).mem = writeRange (view s.d).mem (address + offset) rest ∧
         (view s'.d).queue = [] ∧
@@ -686,7 +686,7 @@ theorem readLoop_conforming_stale (hc : Conforming dev view lim plan ms) (p : Pr
       simp only [addW]; rw [if_pos (by omega)]
     obtain ⟨s', hs', hm', hq', hcfg', hop', _, _, hpr'⟩ :=
       readLoop_conforming hc p m address hm hm16 hmack hcmd hms retry
-        (fun i => by have := hplan i; omega) s.h.cfg.timeoutMs mc hmc f
+        (fun i => by have := hplan i; omega) s.h.cfg.xfer mc hmc f
         (offset + min m rem) (rem - min m rem) s1
         ((readRange (view s.d).mem (address + offset) (min m rem)).reverse ++ accRev)
         (by omega) (by omega) (by omega) (by rw [hh1]; exact Nat.mod_lt _ (by omega))
@@ -709,7 +709,7 @@ theorem readLoop_conforming_stale (hc : Conforming dev view lim plan ms) (p : Pr
     · have h := congrArg Prog.id hpr'
       simp only at h
       rw [h]
-      rcases runEvents_final plan ms s.h.cfg.timeoutMs
+      rcases runEvents_final plan ms s.h.cfg.xfer
         ((readChunkList m address f (offset + min m rem) (rem - min m rem)).map
           (readStep (view s1.d).mem)) ⟨s1.h.nextReqId, s1.h.bufLen, (view s1.d).txn⟩ with h2 | h2
       · rw [h2]; exact Nat.mod_lt _ (by omega)
@@ -753,7 +753,7 @@ theorem writeChunkLoop_conforming_stale (hc : Conforming dev view lim plan ms) (
             hstale (by rw [hretry]; exact hplan _)
         obtain ⟨s', hs', hm', hq', hcfg', hop', _, hid', _, hpr'⟩ :=
           writeChunkLoop_conforming hc p hack hms retry (fun i => by have := hplan i; omega)
-            s.h.cfg.timeoutMs f it' s1 rest hrest (fun x hx => hok x (List.mem_cons_of_mem _ hx))
+            s.h.cfg.xfer f it' s1 rest hrest (fun x hx => hok x (List.mem_cons_of_mem _ hx))
             (by rw [hh1]; exact Nat.mod_lt _ (by omega)) (by rw [hh1]; exact hretry)
             (by rw [hh1]; exact hmaxc) (by rw [hh1]) hq1
         refine ⟨s', ?_, by rw [hm', hm1]; rfl, by simpa using hq', by rw [hcfg', hh1],
@@ -823,7 +823,7 @@ theorem writeBlockLoop_conforming_stale (hc : Conforming dev view lim plan ms) (
         rw [if_neg hcsne] at hq1
         obtain ⟨s', hs', hm', hq', hcfg', hop', _⟩ :=
           writeBlockLoop_conforming hc p address hb hbu hack hms retry
-            (fun i => by have := hplan i; omega) s.h.cfg.timeoutMs f
+            (fun i => by have := hplan i; omega) s.h.cfg.xfer f
             (offset + (rest.take MAX_WRITE_BLOCK).length) (rest.drop MAX_WRITE_BLOCK) s1
             (by omega) (by omega) (by omega) hid1
             (by rw [hcfg1]; exact hretry) (by rw [hcfg1]; exact hmaxc) (by rw [hcfg1]) hq1
